@@ -94,6 +94,7 @@ func init() {
 	}
 	vf["verifIsSymbolic"] = func(fr *frame, a []value) value { return True }
 	vf["verifReportPanics"] = func(fr *frame, a []value) value { E.reportPanics = a[0].(*Term).IsTrue(); return nil }
+	vf["verifPreemptions"] = func(fr *frame, a []value) value { E.preemptLeft = int(concInt(a[0], true)); return nil }
 	vf["verifSchedFork"] = func(fr *frame, a []value) value { E.schedFork = a[0].(*Term).IsTrue(); return nil }
 	vf["verifTraceMark"] = func(fr *frame, a []value) value {
 		E.traceCalls = true
